@@ -2,6 +2,7 @@ package verifworld
 
 import (
 	"fmt"
+	"sort"
 	"strings"
 
 	vs "metacontroller/pkg/internal/verifsim"
@@ -227,8 +228,31 @@ func PropC08(c *vs.Case, f Factory, o RolloutOpts) error {
 	c.Describe(func() any {
 		return map[string]any{"scenario": scn, "steps": log, "ogStyle": env.OGStyle, "condStyle": env.CondStyle}
 	})
+	shuffleRevs := c.Prob(1, 4)
+	if shuffleRevs {
+		c.Class("revision-claims-relisted-in-another-order")
+	}
 	fairSync := func() (*SyncTrace, error) {
 		env.MakeHealthy()
+		if shuffleRevs {
+			// the stored ControllerRevisions list the same claims in another order (written by another
+			// version, restored from a backup): the order carries no meaning
+			for _, ro := range env.W.Sim.ListAll("controllerrevisions") {
+				env.W.Sim.ExtUpdate("controllerrevisions", metaStr(ro, "namespace"), metaStr(ro, "name"), func(o map[string]any) {
+					kids, _ := o["children"].([]any)
+					for i, j := 0, len(kids)-1; i < j; i, j = i+1, j-1 {
+						kids[i], kids[j] = kids[j], kids[i]
+					}
+					for _, k := range kids {
+						if km, ok := k.(map[string]any); ok {
+							if ns, ok := km["names"].([]any); ok {
+								sort.Slice(ns, func(a, b int) bool { return fmt.Sprint(ns[a]) > fmt.Sprint(ns[b]) })
+							}
+						}
+					}
+				})
+			}
+		}
 		env.W.SyncAll()
 		parent := env.Parent()
 		observed := env.ownedWidgets()
@@ -314,6 +338,9 @@ func PropC08(c *vs.Case, f Factory, o RolloutOpts) error {
 	}
 	if owned != 1 {
 		return withTrace(vs.Violf("C08/revisions-not-pruned", "%d ControllerRevisions remain after the rollout completed, want exactly the latest", owned), last)
+	}
+	if len(env.CacheViolations) > 0 {
+		return vs.Violf("C17/cache-mutated", "shared cache objects changed during a sync: %v", env.CacheViolations)
 	}
 	return nil
 }
